@@ -43,6 +43,16 @@ def _selected():
     return [k for k in keys if not sel or k in sel.split(",")]
 
 
+# loops of the harness itself (state construction) get their own bounds; the bound for the loops of the
+# real code is UNWIND: every such loop is bounded by a precondition (chunk <= 8 bytes, EE key parts <= 12
+# bytes when compared, <= 2 anchors / names / certificates, strings <= 7 characters)
+UNWIND = 14
+HARNESS_LOOPS = ["main.%d:40" % i for i in range(4)] + ["c05_env.%d:70" % i for i in range(14)] + \
+                ["c05_engine_env.%d:70" % i for i in range(8)] + ["c05_init_symbolic.%d:40" % i for i in range(48)] + \
+                ["c05_anchor.%d:70" % i for i in range(2)] + ["c05_pkey_setup.%d:12" % i for i in range(3)]
+SPECIAL_UNWIND = {"strlen": 260, "verify-SKE-sig": 50, "verify-CV-sig": 50}
+
+
 def queries():
     qs = []
     for key in _selected():
@@ -62,7 +72,7 @@ def queries():
             units = t0tool.effect_units(p)
             qs.append(Q("nat-%s-%d-%s" % (key, n.op, t0tool.sanitise(n.name)), "C05_native.c", units=units,
                         defs=["-DC05_KEY_%s=1" % key, "-DOP=%d" % n.op, "-I" + d, "-I" + os.path.join(ROOT, "encoders")],
-                        unwind=34, timeout=300, tier="quick",
+                        unwind=SPECIAL_UNWIND.get(n.name, UNWIND), unwindset=HARNESS_LOOPS, timeout=300, tier="quick",
                         desc="native word '%s' (opcode %d) of %s from any VM/context state under its call-site precondition: memory safety, field containment of context-offset operands, termination" % (n.name, n.op, p.rel)))
     return qs
 
